@@ -555,3 +555,19 @@ Proof.
   - vm_compute. reflexivity.
   - apply N.nlt_0_r.
 Qed.
+
+(* the sticky theorem's premises are met by a concrete run, and its "still waiting" clause is not idle: thread 0 holds
+   ceiling-1 while thread 1 drives the counter to the ceiling; its encryption afterwards still (rightly) succeeds,
+   and what is reserved after that is refused *)
+Definition st_progs := [[Hot; Hot]; [Next]].
+Definition st_start := RejectAfterMessages - 2.
+Definition st_sched1 : list N := [0; 0; 1; 1; 1].
+Definition st_sched2 : list N := [0; 0; 0; 0; 0; 0].
+
+Lemma example_sticky :
+  let s1 := fst (exec (real_cfg false) st_sched1 (init st_start st_progs) []) in
+  headroom_ok st_start (length (st_sched1 ++ st_sched2)) /\
+  ctr s1 = NoiseRejectAfterMessages /\ ph (threads s1 0) = Reserved (RejectAfterMessages - 1) /\
+  snd (exec (real_cfg false) st_sched2 s1 []) =
+    [EvEnc 0 (RejectAfterMessages - 1) true; EvAdd 0 (RejectAfterMessages + 1); EvEnc 0 (RejectAfterMessages + 1) false].
+Proof. cbv zeta. split; [vm_compute; reflexivity|]. split; [|split]; vm_compute; reflexivity. Qed.
